@@ -20,7 +20,7 @@ RULE = ('full product for Levenberg-Marquardt + autograd: basis {const, (1,x), (
         'correlation {off, estimated, user-supplied inverse Cholesky factor}; deviation bound 1 for method {migrad, Nelder-Mead, '
         'Powell} and num_grad; combined fits with 2..3 data sets sharing parameters (incl. a constant-shape function) x key '
         'insertion orders x correlation modes; all permutations of 4 points; Corr.fit over ranges with undefined timeslices; '
-        'fit_lin; expected_chisquare.  Thorough tier: every number of points from npar+1 to 10, the full product minimiser/num_grad x basis x layout x prior form x correlation mode, all 120 orders of 5 points (linear and quadratic basis).  Compared: parameter values, every fluctuation, every covariance-input gradient, chisquare, '
+        'fit_lin; expected_chisquare; call history: every minimiser after earlier fits with loose tolerances / other options, and the same data objects fitted again after their error analysis was repeated with other parameters (estimated, absent and supplied correlation).  Thorough tier: every number of points from npar+1 to 10, the full product minimiser/num_grad x basis x layout x prior form x correlation mode, all 120 orders of 5 points (linear and quadratic basis).  Compared: parameter values, every fluctuation, every covariance-input gradient, chisquare, '
         'dof, p_value, t2_p_value, chisquare_by_expected_chisquare.  Non-trivial = every fit except (two-parameter, independent, no prior, uncorrelated)')
 ASSUMPTIONS = ['central values to 1e-4 sigma (LM) / 5e-3 sigma (other minimisers); fluctuations to 1e-7 (they depend only on the constant Hessian)',
                'the estimated correlation matrix of correlated fits is taken from pe.covariance (decided by C06)',
@@ -107,11 +107,13 @@ def prior_inputs(pe, spec, npar):
     refs = []
     objs = {}
     for idx, form, val, err in spec:
-        if form == 'str':
+        if form in ('str', 'str-same'):
             o = pe.cov_Obs(val, err ** 2, 'tmp')
             s = str(o)          # '0.80(10)'
             # the documented forms: 0.548(23), 500(40), 0.5(0.4); values with trailing zeros on purpose
             s = {0: '0.90(20)', 1: '-0.30(25)', 2: '0.2(0.3)', 3: '-0.020(10)'}.get(idx, s) if abs(val) < 5 else s
+            if form == 'str-same':
+                s = '0.5(4)'        # literally the same string on several parameters
             from checks.c19 import parse
             _, V, E, _unit = parse(s)        # the documented reading of 'value(error)', independent of the library's parser
             pv, pd = float(V), float(E)
@@ -207,6 +209,10 @@ def prior_specs(npar):
     vals = [(PTRUE[i] * 1.1 + 0.05, 0.2 + 0.05 * i) for i in range(npar)]
     specs.append(('list-str', [(i, 'str') + vals[i] for i in range(npar)]))
     specs.append(('list-obs', [(i, 'obs') + vals[i] for i in range(npar)]))
+    if npar >= 2:
+        # the SAME string on every parameter: still independent priors
+        specs.append(('list-str-identical', [(i, 'str-same', 0.5, 0.4) for i in range(npar)]))
+        specs.append(('dict-str-identical(0, 1)', [(i, 'str-same', 0.5, 0.4) for i in (0, 1)]))
     if npar <= 3:
         for k in range(1, npar + 1):
             for sub in itertools.combinations(range(npar), k):
@@ -241,6 +247,8 @@ def build(tier, seed):
         cases.append({'kind': 'combined', 'layout': layout})
     cases.append({'kind': 'corrfit'})
     cases.append({'kind': 'misc'})
+    for basis in ('lin', 'quad'):
+        cases.append({'kind': 'history', 'basis': basis})
     return cases
 
 
@@ -264,6 +272,8 @@ def run_case(case):
             run_corrfit(pe, acc, case)
         elif k == 'misc':
             run_misc(pe, acc, case)
+        elif k == 'history':
+            run_history(pe, acc, case)
     return acc
 
 
@@ -351,6 +361,36 @@ def run_methods_full(pe, acc, case):
             sub = dict(case, num_grad=True, priors=pspec[0], mode=mode)
             one_fit(pe, acc, sub, 'fit-numgrad', basis, x, ys, pspec, mode, {'num_grad': True}, method_tol=1e-4, key=('ngf', basis, layout, pspec[0], mode))
     acc.sample(dict(case, methods=['migrad', 'Nelder-Mead', 'Powell', 'num_grad'], priors='every form', correlation=['off', 'estimated', 'user']))
+
+
+def run_history(pe, acc, case):
+    """A fit must not depend on the fits made before it, nor on an earlier analysis state of the same data objects."""
+    basis = case['basis']
+    npar, f, row = BASES[basis]
+    x, ys = make_y(pe, basis, 6, 'shared', 'h')
+    xo, yo = make_y(pe, 'lin', 6, 'indep', 'hother')
+    none = prior_specs(npar)[0]
+    # (a) earlier fits with unusual options (loose tolerances, other minimisers, priors, correlated) must leave nothing behind
+    polluters = [('tol', {'method': 'Nelder-Mead', 'tol': 0.5}), ('tol', {'method': 'Powell', 'tol': 0.3}), ('tol', {'method': 'migrad', 'tol': 5.0}),
+                 ('kw', {'correlated_fit': True}), ('kw', {'num_grad': True}), ('priors', {'priors': ['0.5(4)', '0.5(4)']})]
+    for pname, pkw in polluters:
+        try:
+            pe.least_squares(xo, yo, BASES['lin'][1], silent=True, **pkw)
+        except Exception:
+            pass
+        for method in (None, 'migrad', 'Nelder-Mead', 'Powell'):
+            for mode in ('off', 'estimated'):
+                sub = dict(case, after=[pname, {k: (v if not isinstance(v, list) else list(v)) for k, v in pkw.items()}], method=method, mode=mode)
+                one_fit(pe, acc, sub, 'fit-history:after-%s' % pname, basis, x, ys, none, mode, ({'method': method} if method else None),
+                        method_tol=(5e-3 if method else 1e-4), skip_nonconv=bool(method), key=('hist', basis, pname, repr(sorted(pkw.items(), key=str)), method, mode))
+    # (b) the same data objects fitted again after their error analysis was repeated with other parameters
+    for mode in ('estimated', 'off', 'user'):
+        for pars in ({'S': 0}, {'tau_exp': 4, 'N_sigma': 1}, {'S': 3.0}, {}):
+            [y.gamma_method(**pars) for y in ys]
+            sub = dict(case, reanalysed_with=pars, mode=mode)
+            one_fit(pe, acc, sub, 'fit-history:reanalysed', basis, x, ys, none, mode, key=('hist-re', basis, mode, repr(pars)))
+            one_fit(pe, acc, sub, 'fit-history:reanalysed', basis, x, ys, prior_specs(npar)[1], mode, key=('hist-re-pr', basis, mode, repr(pars)))
+    acc.sample(dict(case, polluters=[p[0] for p in polluters], reanalysis=['S=0', 'tau_exp=4', 'S=3', 'default']))
 
 
 def run_permutations(pe, acc, case):
